@@ -64,6 +64,193 @@ class ShrinkTimeout(BaseException):
     pass
 
 
+# ---- cases that do not come back
+#
+# The code under test is synchronous between two awaits, so a loop that never ends inside
+# the library (a fixed point that is never recognised, a scan that restarts for ever) would
+# hang the check instead of failing it.  A wall-clock alarm is NOT the oracle (a slow
+# machine must never raise an alarm): it only triggers a second, deterministic evaluation of
+# the same case under a tracer that counts the lines executed inside the asynciojobs package
+# and gives up after STEP_BUDGET of them - about 50 times what the largest generated case of
+# any property needs (measured with VERIF_MEASURE_STEPS=1: see DESIGN.md section 2.5).  Budget exceeded => violation
+# `<ID>:does-not-terminate`; evaluation completed => the case was merely slow (its normal
+# verdict is used and the slowness is counted as `inconclusive`).
+
+class CaseTimeout(KeyboardInterrupt):
+    pass
+
+
+class StepBudget(KeyboardInterrupt):
+    pass
+
+
+WATCHDOG = int(os.environ.get('VERIF_WATCHDOG', '150'))
+STEP_BUDGET = int(os.environ.get('VERIF_STEP_BUDGET', str(2 * 10**9)))
+MEASURE_STEPS = os.environ.get('VERIF_MEASURE_STEPS') == '1'
+max_steps_seen = [0]
+
+
+def _library_dir():
+    import asynciojobs
+    return os.path.dirname(os.path.abspath(asynciojobs.__file__)) + os.sep
+
+
+def count_library_steps(fn, case, budget):
+    """(result of fn(case), lines executed inside the library), or (None, None) when more
+    than `budget` lines were executed"""
+    libdir = _library_dir()
+    count = [0]
+    inlib = {}
+
+    def local(frame, event, arg):
+        if event == 'line':
+            count[0] += 1
+            if count[0] > budget:
+                raise StepBudget()
+        return local
+
+    def tracer(frame, event, arg):
+        code = frame.f_code
+        hit = inlib.get(code)
+        if hit is None:
+            hit = inlib[code] = code.co_filename.startswith(libdir)
+        return local if hit else None
+
+    old = sys.gettrace()
+    sys.settrace(tracer)
+    try:
+        res = fn(case)
+    except BaseException:
+        if count[0] > budget:
+            return None, None
+        raise
+    finally:
+        sys.settrace(old)
+    if count[0] > budget:           # the harness may have recorded StepBudget as an outcome
+        return None, None
+    return res, count[0]
+
+
+def exceeds_budget_in_child(fn, case, budget, want_result=True):
+    """Evaluate fn(case) in a forked child under the line counter.  Returns (exceeded, result):
+    exceeded is True when the child executed more than `budget` lines inside the library
+    (it exits on the spot: nothing can swallow that); result is fn(case) as computed by the
+    child when it could be sent back, else None."""
+    import pickle
+    rfd, wfd = os.pipe()
+    sys.stdout.flush()
+    sys.stderr.flush()
+    pid = os.fork()
+    if pid == 0:                                            # ---- child
+        code = 4
+        try:
+            import signal
+            signal.alarm(0)
+            signal.signal(signal.SIGALRM, signal.SIG_DFL)
+            os.close(rfd)
+            libdir = _library_dir()
+            count = [0]
+            inlib = {}
+
+            def local(frame, event, arg):
+                if event == 'line':
+                    count[0] += 1
+                    if count[0] > budget:
+                        os._exit(3)
+                return local
+
+            def tracer(frame, event, arg):
+                code_ = frame.f_code
+                hit = inlib.get(code_)
+                if hit is None:
+                    hit = inlib[code_] = code_.co_filename.startswith(libdir)
+                return local if hit else None
+            sys.settrace(tracer)
+            try:
+                res = fn(case)
+            finally:
+                sys.settrace(None)
+            try:
+                data = pickle.dumps((res, count[0])) if want_result else \
+                    pickle.dumps((None, count[0]))
+            except Exception:
+                data = pickle.dumps((None, count[0]))
+            with os.fdopen(wfd, 'wb') as f:
+                f.write(data)
+            code = 0
+        except BaseException:
+            try:
+                traceback.print_exc()
+            except BaseException:
+                pass
+        finally:
+            os._exit(code)
+    os.close(wfd)                                           # ---- parent
+    with os.fdopen(rfd, 'rb') as f:
+        data = f.read()
+    _, status = os.waitpid(pid, 0)
+    code = os.waitstatus_to_exitcode(status)
+    if code == 3:
+        return True, None, None
+    if code != 0 or not data:
+        raise RuntimeError("evaluation in a child process failed (exit %s)" % code)
+    res, steps = pickle.loads(data)
+    return False, res, steps
+
+
+_confirmed_hang = []    # this worker has reported a loop: it skips the rest of its work (every
+                        # further case of that kind would cost minutes)
+_tainted = []       # this process was interrupted in the middle of a case: its module state
+                    # (event loop, recorder) may be inconsistent, so it evaluates in children
+
+
+def guarded(prop_id, fn, case, budget=None):
+    import signal
+    budget = budget or STEP_BUDGET
+    if MEASURE_STEPS:
+        res, n = count_library_steps(fn, case, 10**12)
+        if n > max_steps_seen[0]:
+            max_steps_seen[0] = n
+        return res
+    fired = []
+    if not _tainted:
+        def on_alarm(signum, frame):
+            fired.append(True)
+            signal.alarm(3)         # again and again until control is back here: a harness
+            raise CaseTimeout()     # clause may catch it and go on into the next loop
+        old = signal.signal(signal.SIGALRM, on_alarm)
+        signal.alarm(WATCHDOG)
+        try:
+            try:
+                res = fn(case)
+            finally:
+                signal.alarm(0)
+        except BaseException:
+            if not fired:
+                raise
+        else:
+            if not fired:
+                return res
+        finally:
+            signal.alarm(0)
+            signal.signal(signal.SIGALRM, old)
+        _tainted.append(True)
+    exceeded, res, steps = exceeds_budget_in_child(fn, case, budget)
+    if exceeded:
+        _confirmed_hang.append(True)
+        res = Result()
+        res.fail(prop_id + ':does-not-terminate',
+                 "the case did not come back within %d s, and evaluated again under a line "
+                 "counter it executed more than %d lines inside the asynciojobs package "
+                 "without finishing (the largest generated cases need about a fiftieth "
+                 "of that): some call of the library loops" % (WATCHDOG, budget))
+    elif res is None:
+        raise RuntimeError("the result of a slow case could not be sent back by the child")
+    elif fired:
+        res.inconclusive = 'slow case (watchdog fired; finished after %d library lines)' % steps
+    return res
+
+
 def case_digest(case):
     blob = json.dumps(case, sort_keys=True, default=str)
     return hashlib.sha1(blob.encode()).hexdigest()[:16]
@@ -140,6 +327,8 @@ def _get_prop(prop_id):
 def _hyp_worker(args):
     prop_id, tier, seed, shard, examples, known_sigs, shrink = args
     try:
+        if _confirmed_hang:
+            return dict(ok=True, stats=Stats(), failed=None)
         import hypothesis
         from hypothesis import given, settings, HealthCheck, Phase
         prop = _get_prop(prop_id)
@@ -158,15 +347,17 @@ def _hyp_worker(args):
             # shrinking is bounded by wall-clock: once the budget is spent the run is
             # abandoned (a BaseException goes through Hypothesis) and the smallest failing
             # case seen so far is reported
-            if failing and time.time() - failing['since'] > shrink_budget:
-                raise ShrinkTimeout()
-            res = prop.evaluate(case)
+            if failing and (time.time() - failing['since'] > shrink_budget
+                            or failing.get('hang') or _confirmed_hang):
+                raise ShrinkTimeout()       # (a case that hangs is not shrunk: minutes each)
+            res = guarded(prop_id, prop.evaluate, case, getattr(prop, 'STEP_BUDGET', None))
             bad = stats.add(case, res, known_sigs)
             if bad:
                 failing.setdefault('since', time.time())
                 failing['case'] = res.replay_case or case
                 failing['digest'] = case_digest(case)
                 failing['violations'] = [v.as_dict() for v in bad]
+                failing['hang'] = any(v.sig.endswith(':does-not-terminate') for v in bad)
                 raise CaseFailed(bad[0].sig)
 
         try:
@@ -174,7 +365,7 @@ def _hyp_worker(args):
             failed = None
         except (CaseFailed, ShrinkTimeout):
             failed = dict(failing)
-        return dict(ok=True, stats=stats, failed=failed)
+        return dict(ok=True, stats=stats, failed=failed, max_steps=max_steps_seen[0])
     except BaseException:
         return dict(ok=False, error=traceback.format_exc())
 
@@ -182,17 +373,22 @@ def _hyp_worker(args):
 def _sweep_worker(args):
     prop_id, tier, name, chunk, known_sigs = args
     try:
+        if _confirmed_hang:
+            return dict(ok=True, stats=Stats(), failed=None, name=name)
         prop = _get_prop(prop_id)
         stats = Stats()
         failed = None
         fn = dict((n, f) for n, _, f in prop.sweeps(tier))[name]
         one = getattr(prop, 'evaluate_one', prop.evaluate)     # enumerations: no variants
         for case in fn(chunk):
-            res = one(case)
+            res = guarded(prop_id, one, case, getattr(prop, 'STEP_BUDGET', None))
             bad = stats.add(case, res, known_sigs)
-            if bad and failed is None:
+            if bad:
+                # the first failure of a chunk is what gets reported: stop there (on a tree
+                # where a call loops, every further case would cost minutes)
                 failed = dict(case=res.replay_case or case, violations=[v.as_dict() for v in bad])
-        return dict(ok=True, stats=stats, failed=failed, name=name)
+                break
+        return dict(ok=True, stats=stats, failed=failed, name=name, max_steps=max_steps_seen[0])
     except BaseException:
         return dict(ok=False, error=traceback.format_exc())
 
@@ -212,7 +408,7 @@ def evaluate_file(prop, path):
     with open(path) as f:
         data = json.load(f)
     case = data['case'] if isinstance(data, dict) and 'case' in data else data
-    return case, prop.evaluate(case)
+    return case, guarded(prop.ID, prop.evaluate, case, getattr(prop, 'STEP_BUDGET', None))
 
 
 def run_property(prop_id, tier, seed, replay=None, jobs=None, out=sys.stdout,
@@ -313,6 +509,7 @@ def run_property(prop_id, tier, seed, replay=None, jobs=None, out=sys.stdout,
                     harness_errors.append(r['error'])
                     continue
                 total.merge(r['stats'])
+                max_steps_seen[0] = max(max_steps_seen[0], r.get('max_steps', 0))
                 if r['failed']:
                     path = write_finding(prop_id, r['failed']['case'],
                                          r['failed']['violations'],
@@ -369,6 +566,8 @@ def run_property(prop_id, tier, seed, replay=None, jobs=None, out=sys.stdout,
         with open(os.path.join(edir, prop_id + '.json'), 'w') as f:
             json.dump(evidence, f, indent=1, default=str)
             f.write("\n")
+    if MEASURE_STEPS:
+        say("max library lines executed by one case: %d" % max_steps_seen[0])
     say("%s %s seed=%d: %d cases, %d distinct non-trivial, %d violation(s), "
         "%d known-finding hit(s), %.1fs"
         % (prop_id, tier, seed, total.evaluations, len(total.nontrivial), len(seen),
